@@ -310,6 +310,16 @@ def tEvalHoisted {V S} (F : Facts) (prim : Prim V S) (cells : List (String × C0
 def droppedFacts : Facts :=
   { genFacts with dispatch := genFacts.dispatch.filter (fun en => en.1 != "#") }
 
+/-! #### a handler that converts under a condition only: the tables the extractor emits for the
+    seeded change C02-s7 (`except ZeroDivisionError as e: if arg != 0: raise` in front of the
+    converting clause) do not list what that handler — and the clause it shadows — names -/
+
+def condFacts : Facts :=
+  { genFacts with dispatch := genFacts.dispatch.map (fun en =>
+      match Kind.ofString en.2.1 with
+      | .bin _ | .un _ => (en.1, en.2.1, [])
+      | _ => en) }
+
 /-! #### `T[1](T[2])` on a target whose items are `T` objects (`tobj`, also the identity
     function): a stored `T` object as argument, and as callee -/
 
@@ -404,6 +414,44 @@ theorem c02_wf_counterexample :
       droppedFacts, genFacts, Generated.tDispatch]
   · simp [refEval_texpr, refStep, arglessDunders, meaning, meaningTable, foldSteps, pyApply,
       toyPrim, refArg]
+
+/-- **Every failing arithmetic step is a PathAccessError — unconditionally.**  The facts
+    obligation demands that the `except` clause of the arithmetic branch covers TypeError,
+    ZeroDivisionError, OverflowError and ValueError (by the class itself or a base class,
+    decided on the exception table extracted from Python) with a handler whose whole body
+    builds the PathAccessError.  With the tables of a tree in which that conversion is
+    conditional (the extractor does not list such a handler: `condFacts`) `WF` fails, the
+    model of `_t_eval` lets the ZeroDivisionError of `T // 0` escape as it is, while the
+    property (and the model on the tables of /repo) reports PathAccessError at position 0.
+    Real glom with the seeded change C02-s7: `glom(0, T ** -1)` raises a wrapped
+    ZeroDivisionError instead of `PathAccessError(…, 0)`. -/
+theorem c02_conditional_handler_counterexample :
+    WF condFacts = false ∧
+    tEval condFacts (toyPrim plain) (.tt [.root "T", .opc "#", .lit (.n 0)]) (.n 7) []
+      = (.error (.raised ⟨"ZeroDivisionError"⟩), []) ∧
+    tEval genFacts (toyPrim plain) (.tt [.root "T", .opc "#", .lit (.n 0)]) (.n 7) []
+      = (.error (.pae 0 ⟨"ZeroDivisionError"⟩), []) ∧
+    errOf genFacts (.opFail 0 (.bin .floordiv) ⟨"ZeroDivisionError"⟩)
+      = .pae 0 ⟨"ZeroDivisionError"⟩ := by
+  have h : (C02.Obj.tt [.root "T", .opc "#", .lit (TV.n 0)]) =
+      .tt (.root "T" :: flatOfCells [("#", .lit (.n 0))]) := by simp [flatOfCells]
+  have hrec : record genFacts (toyPrim plain).none (.texpr [("__floordiv__", .lit (.n 0))])
+      = some (.tt [.root "T", .opc "#", .lit (.n 0)]) := by
+    simp [toyPrim, record_texpr, recStep, charOf, genFacts, Generated.tRecorded, arglessDunders,
+      allSome, flatOfCells, record]
+  have href : refEval (toyPrim plain) (.texpr [("__floordiv__", .lit (.n 0))]) (.n 7) []
+      = (.error (.opFail 0 (.bin .floordiv) ⟨"ZeroDivisionError"⟩), []) := by
+    simp [refEval_texpr, refStep, arglessDunders, meaning, meaningTable, foldSteps, pyApply,
+      toyPrim, refArg]
+  have herr := (c02_error_classes genFacts c02_facts_wf 0 (.bin .floordiv) ⟨"ZeroDivisionError"⟩).1
+    (by decide)
+  refine ⟨by decide, ?_, ?_, herr⟩
+  · rw [h]
+    simp [tEval, argVal_tt_T, stepsEval, argVal_lit, stepOp, Generated.tArgValExempt, applyBranch,
+      dispatchOf, condFacts, genFacts, Generated.tDispatch, Kind.ofString, kindNames, guarded,
+      guardE, toyPrim, caughtBy]
+  · rw [c02_replay genFacts c02_facts_wf (toyPrim plain) plain_ok _ _ hrec, href]
+    simp only [outS, outOf, herr]
 
 /-- **The arguments of a recorded call are evaluated exactly once.**  `T[1](T[2])`
     on a target whose item 2 is a `T` object: the callee (the identity function)
